@@ -25,6 +25,8 @@ def main():
     ap.add_argument("--seed", type=int, default=1)
     ap.add_argument("--files", default="backend_inotify.go,shared.go,fsnotify.go")
     ap.add_argument("--jobs", type=int, default=9)
+    ap.add_argument("--only", default="", help="file with mutant indices (one per line) to run instead of a random sample")
+    ap.add_argument("--results", default="results.jsonl")
     ap.add_argument("--kq", action="store_true", help="kqueue backend: compile for freebsd, no Linux suite, checks C15 C17 C18")
     a = ap.parse_args()
     global CHECKS
@@ -50,9 +52,13 @@ def main():
         for line in r.stdout.splitlines():
             idx, pos, desc = line.split("\t")
             muts.append((f, int(idx), pos.split(":")[-1], desc))
+    muts0 = list(muts)
     random.Random(a.seed).shuffle(muts)
     muts = muts[: a.n]
-    resf = open(S + "/results.jsonl", "a")
+    if a.only:
+        want_idx = set(int(x) for x in open(a.only).read().split())
+        muts = [m for m in muts0 if m[1] in want_idx]
+    resf = open(S + "/" + a.results, "a")
     env = dict(ENV, VERIF_REPO=repo, VERIF_HARNESS_DIR=harness, VERIF_OUT_DIR=out)
     for k, (f, idx, line, desc) in enumerate(muts):
         t0 = time.time()
